@@ -28,6 +28,21 @@ Arity == [last |-> {0}, position |-> {0}, count |-> {1}, id |-> {1}, name |-> {0
           ceiling |-> {1}, round |-> {1}, current |-> {0}, key |-> {2}]
 Arity2 == [x \in {"local-name", "namespace-uri", "string-length", "normalize-space"} |-> {0, 1}] @@
           [x \in {"starts-with", "substring-before", "substring-after"} |-> {2}]
+(* the bundled extension libraries: namespace URI (code points) -> library tag, and their functions *)
+ExtLibs == << [lib |-> "set",   uri |-> <<104,116,116,112,58,47,47,101,120,115,108,116,46,111,114,103,47,115,101,116,115>>],
+              [lib |-> "math",  uri |-> <<104,116,116,112,58,47,47,101,120,115,108,116,46,111,114,103,47,109,97,116,104>>],
+              [lib |-> "exsl",  uri |-> <<104,116,116,112,58,47,47,101,120,115,108,116,46,111,114,103,47,99,111,109,109,111,110>>],
+              [lib |-> "str",   uri |-> <<104,116,116,112,58,47,47,101,120,115,108,116,46,111,114,103,47,115,116,114,105,110,103,115>>],
+              [lib |-> "xalan", uri |-> <<104,116,116,112,58,47,47,120,109,108,46,97,112,97,99,104,101,46,111,114,103,47,120,97,108,97,110>>] >>
+ExtFns == [set |-> {<<100,105,102,102,101,114,101,110,99,101>>, <<105,110,116,101,114,115,101,99,116,105,111,110>>, <<100,105,115,116,105,110,99,116>>,
+                    <<104,97,115,45,115,97,109,101,45,110,111,100,101>>, <<108,101,97,100,105,110,103>>, <<116,114,97,105,108,105,110,103>>},
+           math |-> {<<109,105,110>>, <<109,97,120>>, <<104,105,103,104,101,115,116>>, <<108,111,119,101,115,116>>, <<97,98,115>>},
+           exsl |-> {<<111,98,106,101,99,116,45,116,121,112,101>>},
+           str |-> {<<99,111,110,99,97,116>>, <<112,97,100,100,105,110,103>>, <<97,108,105,103,110>>},
+           xalan |-> {<<100,105,102,102,101,114,101,110,99,101>>, <<105,110,116,101,114,115,101,99,116,105,111,110>>, <<100,105,115,116,105,110,99,116>>,
+                      <<104,97,115,83,97,109,101,78,111,100,101,115>>}]
+LibOfUri(u) == LET S == {k \in 1..Len(ExtLibs) : ExtLibs[k].uri = u} IN IF S = {} THEN "" ELSE ExtLibs[CHOOSE k \in S : TRUE].lib
+(* names as TLC strings for the AST (the lexeme text after the colon) *)
 KnownFn(f) == f \in DOMAIN Arity \/ f \in DOMAIN Arity2
 ArityOf(f) == IF f \in DOMAIN Arity THEN Arity[f] ELSE Arity2[f]
 
@@ -183,6 +198,14 @@ PPrimary(ts, p, ns) ==
   ELSE IF IsName(ts, p) /\ IsSym(ts, p + 1, "(") /\ ts[p].s \notin NodeTypes
        THEN LET a == PArgs(ts, p + 2, ns, <<>>) IN
             IF ~a.ok THEN Fail
+            ELSE IF ColonAt(ts[p].cp) # 0
+                 THEN \* an extension function: the prefix must be bound to a bundled library that has this function
+                      LET c0 == ColonAt(ts[p].cp)
+                          pfx == SubSeq(ts[p].cp, 1, c0 - 1)
+                          loc == SubSeq(ts[p].cp, c0 + 1, Len(ts[p].cp))
+                          lib == IF HasPrefix(ns, pfx) THEN LibOfUri(UriOfPrefix(ns, pfx)) ELSE "" IN
+                      IF lib = "" \/ loc \notin ExtFns[lib] THEN Fail
+                      ELSE Ok([op |-> "xfn", lib |-> lib, name |-> ts[p].xname, args |-> a.ast], a.p)
             ELSE IF ~KnownFn(ts[p].s) \/ Len(a.ast) \notin ArityOf(ts[p].s) THEN Fail
             ELSE Ok([op |-> "fn", name |-> ts[p].s, args |-> a.ast], a.p)
   ELSE Fail
